@@ -57,6 +57,12 @@ func main() {
 				fmt.Fprintln(os.Stderr, err)
 				os.Exit(1)
 			}
+			// ... and the functions with named results and no defer (see eng/nodefer.go)
+			nb, _ := json.Marshal(p.NoDeferSnapshot())
+			if err := os.WriteFile(filepath.Join(filepath.Dir(os.Args[2]), "nodefer.json"), nb, 0o644); err != nil {
+				fmt.Fprintln(os.Stderr, err)
+				os.Exit(1)
+			}
 		}
 	case "check":
 		os.Exit(check(repo, verif, os.Args[2], os.Args[3]))
